@@ -1015,6 +1015,16 @@ def check_property(pid, tier="quick", seed=0):
     # there leaves this property undecided (its proofs rest on a contract that is not established on this tree)
     support = support_units(unit_names)
     support_notes = []
+    # frame over the source (lib/vxframe.py): changed code that no unit of this check has under contract
+    try:
+        from vxframe import frame
+        frame_notes, frame_units = frame(pid, set(unit_names) | set(support))
+    except Undecided as e:
+        frame_notes, frame_units = ["frame: %s" % e], {}
+    for u, fns in frame_units.items():
+        if u not in support and u not in unit_names:
+            support[u] = sorted(set(fns))
+    support_notes.extend(frame_notes)
     if support:
         with concurrent.futures.ThreadPoolExecutor(max_workers=8) as ex:
             futs = {n: ex.submit(verify_unit, n, seed or None, False) for n in support}
@@ -1310,6 +1320,9 @@ def main(argv):
         return cmd_show(argv[1:])
     if cmd == "binders":
         return record_binders()
+    if cmd == "inventory":
+        from vxframe import record
+        return record()
     if cmd == "replay":
         from vxreplay import replay_file
         return replay_file(argv[1])
